@@ -70,74 +70,151 @@ func ruleR3_5(w *World, r *Report) {
 		r.Unk("R3.5", "anchors", "-", "solver.NewPBClause or Solver.AppendClause not found")
 		return
 	}
-	n := 0
+	readsMinLits := func(fn *ssa.Function) bool {
+		reads := false
+		for g := range w.Reachable(fn) {
+			allInstrs(g, func(ins ssa.Instruction) {
+				if u, ok := ins.(*ssa.UnOp); ok && u.Op == token.MUL && qualField(u.X) == "solver.Solver.minLits" {
+					reads = true
+				}
+			})
+		}
+		return reads
+	}
+	// a step context: the construction np in function fn, seen from the function that holds the optimisation loop
+	type stepCtx struct {
+		fn     *ssa.Function
+		np     *ssa.Call
+		caller ssa.CallInstruction // nil when fn itself holds the loop
+		loopFn *ssa.Function
+		at     ssa.Instruction
+	}
+	var ctxs []stepCtx
 	for _, fn := range w.Fns {
 		if w.PkgName(fn) != "solver" || fn.Signature.Recv() == nil || fn.Parent() != nil {
 			continue
 		}
-		var np *ssa.Call
 		for _, ci := range callsIn(fn) {
 			c, ok := ci.(*ssa.Call)
-			if !ok || !w.staticCalleeIs(c, npb) || !inLoop(fn, c.Block()) {
+			if !ok || !w.staticCalleeIs(c, npb) {
 				continue
 			}
+			feeds := false
 			for _, rr := range *c.Referrers() {
 				if c2, ok := rr.(*ssa.Call); ok && w.staticCalleeIs(c2, app) {
-					np = c
+					feeds = true
+				}
+			}
+			if !feeds {
+				continue
+			}
+			if inLoop(fn, c.Block()) {
+				if readsMinLits(fn) {
+					ctxs = append(ctxs, stepCtx{fn, c, nil, fn, c})
+				}
+				continue
+			}
+			// the step was extracted into a helper: look at its call sites inside loops
+			for _, cs := range w.Callers[fn] {
+				g := cs.Parent()
+				if w.PkgName(g) == "solver" && inLoop(g, cs.Block()) && readsMinLits(g) {
+					ctxs = append(ctxs, stepCtx{fn, c, cs, g, cs})
 				}
 			}
 		}
-		if np == nil {
-			continue
-		}
-		// only the cost-function loops: they read minLits
-		reads := false
-		allInstrs(fn, func(ins ssa.Instruction) {
-			if u, ok := ins.(*ssa.UnOp); ok && u.Op == token.MUL && qualField(u.X) == "solver.Solver.minLits" {
-				reads = true
+	}
+	one := linForm{c: 1, terms: map[string]int64{}}
+	_ = one
+	for _, cx := range ctxs {
+		name := w.FuncName(cx.loopFn)
+		resolve := func(v ssa.Value) ssa.Value {
+			if cx.caller == nil {
+				return v
 			}
-		})
-		if !reads {
-			continue
+			if pi := paramIndex(cx.fn, v); pi >= 0 {
+				args := cx.caller.Common().Args
+				if pi < len(args) {
+					return args[pi]
+				}
+			}
+			return v
 		}
-		n++
-		name := w.FuncName(fn)
-		vals := valueByName(fn)
-		deg := lfOf(np.Call.Args[2], 0)
+		// degree: linear form in fn, parameters substituted by the caller's arguments
+		deg := lfOf(cx.np.Call.Args[2], 0)
+		valsF, valsG := valueByName(cx.fn), valueByName(cx.loopFn)
+		final := linForm{c: deg.c, terms: map[string]int64{}}
+		atomVal := map[string]ssa.Value{}
+		for k, coef := range deg.terms {
+			if coef == 0 {
+				continue
+			}
+			v := valsF[k]
+			if v != nil {
+				if rv := resolve(v); rv != v {
+					sub := lfOf(rv, 0)
+					final = lfAdd(final, lfScale(sub, coef), 1)
+					for k2 := range sub.terms {
+						atomVal[k2] = valsG[k2]
+					}
+					continue
+				}
+			}
+			final.terms[k] += coef
+			atomVal[k] = v
+		}
 		var M, C ssa.Value
-		okShape := deg.c == 1
-		for k, v := range deg.terms {
-			switch v {
+		okShape := final.c == 1
+		for k, coef := range final.terms {
+			switch coef {
 			case 0:
 			case 1:
 				if M != nil {
 					okShape = false
 				}
-				M = vals[k]
+				M = atomVal[k]
 			case -1:
 				if C != nil {
 					okShape = false
 				}
-				C = vals[k]
+				C = atomVal[k]
 			default:
 				okShape = false
 			}
 		}
 		if !okShape || M == nil || C == nil {
-			r.Bad("R3.5", name+" degree of the strengthening constraint", w.InstrPos(np), "the degree is "+deg.String()+", not (total weight) - (cost of the model) + 1: the next model is not forced to be strictly better, or better ones are excluded")
+			r.Bad("R3.5", name+" degree of the strengthening constraint", w.InstrPos(cx.at), "the degree is "+final.String()+", not (total weight) - (cost of the model) + 1: the next model is not forced to be strictly better, or better ones are excluded")
 			continue
 		}
+		// look through helpers: a value that is the result of a module call stands for what the callee returns
+		var through func(v ssa.Value, d int) ssa.Value
+		through = func(v ssa.Value, d int) ssa.Value {
+			c, ok := v.(*ssa.Call)
+			if !ok || d > 2 || len(w.Callees[c]) != 1 {
+				return v
+			}
+			callee := w.Callees[c][0]
+			var rets []ssa.Value
+			allInstrs(callee, func(ins ssa.Instruction) {
+				if ret, ok := ins.(*ssa.Return); ok && len(ret.Results) == 1 {
+					rets = append(rets, ret.Results[0])
+				}
+			})
+			if len(rets) != 1 {
+				return v
+			}
+			return through(rets[0], d+1)
+		}
+		Mv, Cv := through(M, 0), through(C, 0)
 		// ---- maxCost ----
 		{
 			var bad []string
-			mphi, ok := M.(*ssa.Phi)
+			mphi, ok := Mv.(*ssa.Phi)
 			if !ok || len(mphi.Edges) != 2 {
 				bad = append(bad, "the total weight is not chosen between the number of cost literals and the sum of the weights")
 			} else {
 				sawLen, sawSum := false, false
 				for i, e := range mphi.Edges {
 					if isLenOf(e, func(x ssa.Value) bool { return isFieldLoadOf(x, "minLits") }) {
-						// chosen when minWeights == nil
 						found, holds := underCond(mphi.Block().Preds[i], func(c ssa.Value) (bool, bool) {
 							bo, ok := c.(*ssa.BinOp)
 							if !ok || (bo.Op != token.EQL && bo.Op != token.NEQ) || !isFieldLoadOf(bo.X, "minWeights") || !isNilConst(bo.Y) {
@@ -183,15 +260,15 @@ func ruleR3_5(w *World, r *Report) {
 			}
 			key := name + " total weight"
 			if len(bad) > 0 {
-				r.Bad("R3.5", key, w.InstrPos(np), strings.Join(dedupe(bad), "; "))
+				r.Bad("R3.5", key, w.InstrPos(cx.at), strings.Join(dedupe(bad), "; "))
 			} else {
-				r.OK("R3.5", key, w.InstrPos(np), "len(minLits) when minWeights == nil, else the sum over all weights")
+				r.OK("R3.5", key, w.InstrPos(cx.at), "len(minLits) when minWeights == nil, else the sum over all weights")
 			}
 		}
 		// ---- cost ----
 		{
 			var bad []string
-			cphi, ok := C.(*ssa.Phi)
+			cphi, ok := Cv.(*ssa.Phi)
 			if !ok {
 				bad = append(bad, "the cost is not accumulated in a loop over the cost literals")
 			} else {
@@ -215,7 +292,6 @@ func ruleR3_5(w *World, r *Report) {
 					}
 					incs++
 					pred := cphi.Block().Preds[i]
-					// the increment must happen exactly when the cost literal is true in the model
 					litTrue := false
 					for _, ec := range dominatingConds(pred) {
 						bo, ok := ec.Cond.(*ssa.BinOp)
@@ -234,7 +310,6 @@ func ruleR3_5(w *World, r *Report) {
 						if k, ok := constInt(gt.Y); !ok || k != 0 {
 							continue
 						}
-						// gt.X = model[Var(lit)], pos = IsPositive(lit), lit = minLits[idx]
 						ld, ok := gt.X.(*ssa.UnOp)
 						if !ok || ld.Op != token.MUL {
 							continue
@@ -259,7 +334,6 @@ func ruleR3_5(w *World, r *Report) {
 						} else {
 							bad = append(bad, "the cost counts the cost literals that are FALSE in the model")
 						}
-						// weight of the same index
 						if k, ok := constInt(add.Y); ok {
 							if k != 1 {
 								bad = append(bad, fmt.Sprintf("an unweighted cost literal counts %d", k))
@@ -296,15 +370,15 @@ func ruleR3_5(w *World, r *Report) {
 			}
 			key := name + " cost of the model"
 			if len(bad) > 0 {
-				r.Bad("R3.5", key, w.InstrPos(np), strings.Join(dedupe(bad), "; "))
+				r.Bad("R3.5", key, w.InstrPos(cx.at), strings.Join(dedupe(bad), "; "))
 			} else {
-				r.OK("R3.5", key, w.InstrPos(np), "sum over the cost literals true in the model of 1 / their weight, from 0")
+				r.OK("R3.5", key, w.InstrPos(cx.at), "sum over the cost literals true in the model of 1 / their weight, from 0")
 			}
 		}
-		// ---- stop on cost == 0, before the constraint is added ----
+		// ---- stop on cost == 0, before the constraint is added (in the function that holds the loop) ----
 		{
 			stop := false
-			allInstrs(fn, func(ins ssa.Instruction) {
+			allInstrs(cx.loopFn, func(ins ssa.Instruction) {
 				iff, ok := ins.(*ssa.If)
 				if !ok {
 					return
@@ -316,28 +390,29 @@ func ruleR3_5(w *World, r *Report) {
 				if k, ok := constInt(bo.Y); !ok || k != 0 {
 					return
 				}
-				// the true edge must not reach the constraint construction
-				if !reachableBlocks(iff.Block().Succs[0], true)[np.Block()] && iff.Block().Dominates(np.Block()) {
+				if !reachableBlocks(iff.Block().Succs[0], true)[cx.at.Block()] && iff.Block().Dominates(cx.at.Block()) {
 					stop = true
 				}
 			})
-			r.Check(stop, "R3.5", name+" stops at cost 0", w.InstrPos(np), "a test `cost == 0` dominates the construction and leaves the loop",
+			r.Check(stop, "R3.5", name+" stops at cost 0", w.InstrPos(cx.at), "a test `cost == 0` dominates the construction and leaves the loop",
 				"the loop does not stop when a model of cost 0 is found: a constraint of degree maxCost+1, which no assignment satisfies, is added and the optimum is reported Unsat or lost")
 		}
 		// ---- literals and weights of the constraint ----
 		{
 			var bad []string
-			if !copiedFrom(np.Call.Args[0], func(s ssa.Value) bool { return isFieldLoadOf(s, "hypothesis") }) {
+			srcIs := func(pred func(ssa.Value) bool) func(ssa.Value) bool {
+				return func(s ssa.Value) bool { return pred(resolve(s)) }
+			}
+			if !copiedFrom(cx.np.Call.Args[0], srcIs(func(s ssa.Value) bool { return isFieldLoadOf(s, "hypothesis") })) {
 				bad = append(bad, "the literals of the constraint are not a private copy of the hypothesis (the constructor sorts them in place)")
 			}
-			if !copiedFrom(np.Call.Args[1], func(s ssa.Value) bool {
+			if !copiedFrom(cx.np.Call.Args[1], srcIs(func(s ssa.Value) bool {
 				return copiedFrom(s, func(s2 ssa.Value) bool { return isFieldLoadOf(s2, "minWeights") })
-			}) {
+			})) {
 				bad = append(bad, "the weights of the constraint are not a private copy of (a copy of) the cost weights")
 			}
-			// hypothesis[i] = minLits[i].Negation() over the full range
 			neg := false
-			allInstrs(fn, func(ins ssa.Instruction) {
+			allInstrs(cx.loopFn, func(ins ssa.Instruction) {
 				st, ok := ins.(*ssa.Store)
 				if !ok {
 					return
@@ -362,14 +437,33 @@ func ruleR3_5(w *World, r *Report) {
 			}
 			key := name + " literals and weights of the constraint"
 			if len(bad) > 0 {
-				r.Bad("R3.5", key, w.InstrPos(np), strings.Join(bad, "; "))
+				r.Bad("R3.5", key, w.InstrPos(cx.at), strings.Join(bad, "; "))
 			} else {
-				r.OK("R3.5", key, w.InstrPos(np), "negated cost literals with their weights, on private copies")
+				r.OK("R3.5", key, w.InstrPos(cx.at), "negated cost literals with their weights, on private copies")
 			}
 		}
-		r.OK("R3.5", name+" degree of the strengthening constraint", w.InstrPos(np), "maxCost - cost + 1")
+		r.OK("R3.5", name+" degree of the strengthening constraint", w.InstrPos(cx.at), "maxCost - cost + 1")
 	}
-	if n < 2 {
-		r.Unk("R3.5", "optimisation loops", "-", fmt.Sprintf("%d optimisation loop(s) found, expected Optimal and Minimize", n))
+	loops := map[*ssa.Function]bool{}
+	for _, cx := range ctxs {
+		loops[cx.loopFn] = true
+	}
+	if len(loops) < 2 {
+		// Minimize may delegate to Optimal (or the reverse): then one loop serves both
+		delegates := false
+		for _, name := range []string{"Solver.Optimal", "Solver.Minimize"} {
+			f := w.Func("solver", name)
+			if f == nil || loops[f] {
+				continue
+			}
+			for g := range w.Reachable(f) {
+				if loops[g] {
+					delegates = true
+				}
+			}
+		}
+		if !delegates {
+			r.Unk("R3.5", "optimisation loops", "-", fmt.Sprintf("%d optimisation loop(s) found, expected Optimal and Minimize", len(loops)))
+		}
 	}
 }
